@@ -115,6 +115,7 @@ struct GenProfile {
 	std::string prop;            // emphasis
 	bool in_contract = false;    // C18 profile: never exceed the substitution limit etc.
 	bool neutral = false;        // C19 profile: only feature-neutral operations
+	bool ignore_log = false;     // generate as if the build had no logging (cross-build comparison for C16)
 	int max_ops = 24;
 };
 Case generate_case(Rng& rng, const SutInfo& info, const GenProfile& prof);
